@@ -404,6 +404,14 @@ class Check:
         self.out('check {} tier={} VERIF_SEED={} jobs={} budget={}s'.format(
             self.prop, self.tier, self.seed, self.jobs, self.budget))
         try:
+            if self.prop in ('C03', 'C05', 'C07', 'C08', 'C09', 'C10'):
+                # the reference Ninja is part of the trusted base of these
+                from . import refninja_selftest
+                bad = refninja_selftest.run_all()
+                if bad:
+                    self.harness_errors.append({
+                        'seed': None, 'error': 'reference Ninja self-tests '
+                        'failed: ' + '; '.join(bad)})
             selftest = getattr(self.mod, 'selftest', None)
             if selftest:
                 selftest(self)
